@@ -248,9 +248,17 @@ Definition set_code (s : bstate) (c : list (actor * list instr)) : bstate :=
      store_log := store_log s; last_offset := last_offset s; store_mu := store_mu s; store_closed := store_closed s;
      waiters_done := waiters_done s; pubs := pubs s; tasks := tasks s; entered := entered s; turnq := turnq s; turnlog := turnlog s; turndone := turndone s; code := c |}.
 
+(* the body of the panic handler, when the program gives it one (none = it only records the panic).  It reacts only to
+   events whose value is below a threshold - "retry the failed event once": what it publishes carries larger values, so
+   that a handler which panics again does not start the retry again *)
+Definition panic_body : nat := 90.
+Definition panic_retry_below : nat := 50.
 Definition body_of (P : program) (b : nat) : list action :=
   match assoc_get (p_bodies P) b with Some bd => b_acts bd | None => [] end.
 Definition acts (l : list action) : list instr := map IAct l.
+(* what the panic handler does when the failed event carries value v *)
+Definition panic_acts (P : program) (v : nat) : list action :=
+  if Nat.ltb v panic_retry_below then body_of P panic_body else [].
 
 (* the instructions of one callHandlerWithContext *)
 Definition call_handler (P : program) (p : nat) (h : regn) (async : bool) (obs : bool) : list instr :=
@@ -485,7 +493,10 @@ Section Step.
                       inflight := inflight s; cancelled := cancelled s; store_log := store_log s;
                       last_offset := last_offset s; store_mu := store_mu s; store_closed := store_closed s;
                       waiters_done := waiters_done s; pubs := pubs s; tasks := tasks s; entered := entered s; turnq := turnq s; turnlog := turnlog s; turndone := turndone s; code := code s |} a rest, [])
-    | IPanicHandler p h => Some (cont s a rest, [LPanicHandler p (r_id h)])
+    | IPanicHandler p h =>
+        (* the panic handler is user code: it may call back into the bus (e.g. publish the event again); it runs in the
+           deferred function of callHandlerWithContext, after the handler's mutex has been released *)
+        Some (cont s a (acts (panic_acts P (pb_val (get_pub s p))) ++ rest), [LPanicHandler p (r_id h)])
     | IHandlerDone p h panicked => Some (cont s a rest, [LHandlerDone p panicked])
     | ITaskDone =>
         Some (cont {| registry := registry s; next_rid := next_rid s; next_pid := next_pid s; next_actor := next_actor s;
